@@ -857,6 +857,8 @@ def explicit_len_guard(a, facts, param=1):
 
 def len_value(facts, n):
     """the value of a length term: an int, or the type-level name it stands for (symbolic), or None"""
+    if n[0] == 'call' and len(n) < 5:
+        return None          # a call term stripped of its callee description
     if n[0] == 'const' and isinstance(n[2], int):
         return n[2]
     if n[0] == 'call' and n[1].endswith('::to_usize') and n[4]:
@@ -879,6 +881,6 @@ def is_incorrect_len_err(tt, n, param=1, facts=None):
         return False
     same = strip_sites(pl[3][0]) == strip_sites(n)
     if not same and facts is not None:
-        v = len_value(facts, strip_sites(n))
-        same = v is not None and v == len_value(facts, strip_sites(pl[3][0]))
+        v = len_value(facts, n)
+        same = v is not None and v == len_value(facts, pl[3][0])
     return same and strip_sites(pl[3][1]) == ('len', ('param', param))
